@@ -11,13 +11,27 @@
 (* model explains an observation that differs from the reference.          *)
 (*                                                                         *)
 (* Events (all carry raised, tpost = per task [st, cbs, at, tcbs, pilot,   *)
-(* det, exc], ppost = per pilot [st, cbs, at, pcbs]):                      *)
+(* det, exc, pub (handed to advance as FAILED during the event), asd       *)
+(* (as_dict of the task works), inj (as_dict fault injected by the rig)],  *)
+(* ppost = per pilot [st, cbs, at, pcbs]):                                 *)
 (*   Notify     batch = <<uid, state>>* (docs labels the other fields of   *)
 (*              the task documents), iso = <<[rm, post]>>*  (the real      *)
 (*              code re-run on the batch without the entries of rm)        *)
 (*   Bind       uid, pilot, state: Notify of a full dict carrying 'pilot'  *)
 (*   PilotFinal pilot: _pilot_state_cb called directly for a final pilot   *)
 (*   RemovePilots pilots: TaskManager.remove_pilots                        *)
+(*   AddPilots  pilots: TaskManager.add_pilots (one call for all of them)  *)
+(*   TaskUpdate uid, state: Task._update called directly                   *)
+(*   DeathBegin pilot / DeathApply pilot, uid / DeathEnd pilot:            *)
+(*              _pilot_state_cb as a second writer of Task.state: the      *)
+(*              callback started; its Task._update(FAILED) on uid          *)
+(*              returned; the callback returned.  Notify events in between *)
+(*              are notifications delivered after the callback selected    *)
+(*              its victim and before it applied FAILED                    *)
+(*   NotifyBegin batch / NotifyPartial / NotifyEnd batch:                  *)
+(*              _update_tasks interrupted by another thread: the call      *)
+(*              started; where it stands when the other thread runs (the   *)
+(*              events of that thread follow); the call returned           *)
 (*   PNotify    batch = <<type, pid, state>>*, calls = pilots whose state  *)
 (*              callbacks ran with a final state, npilots, stray; docs     *)
 (*              labels the other fields of the pilot documents (they are   *)
@@ -28,9 +42,12 @@ EXTENDS ClientStateOps, TLC, Json, IOUtils
 Batch  == JsonDeserialize(IOEnv.TRACE_FILE)
 Traces == Batch.traces
 
-VARIABLES tid, l, tstate, cbLog, bound, pstate, pcbLog, errs, fin
+VARIABLES tid, l, tstate, cbLog, bound, pstate, pcbLog, errs, fin,
+          added,     \* pilots handed to the task manager
+          sel,       \* callback in progress: tasks bound to the pilot, not final at its start
+          nb0        \* _update_tasks in progress: per task state and log length at its start
 
-vars == <<tid, l, tstate, cbLog, bound, pstate, pcbLog, errs, fin>>
+vars == <<tid, l, tstate, cbLog, bound, pstate, pcbLog, errs, fin, added, sel, nb0>>
 
 T    == Traces[tid]
 Ev   == T.events
@@ -53,6 +70,8 @@ Init ==
   /\ pstate = [p \in Pids |-> 0]
   /\ pcbLog = [p \in Pids |-> <<>>]
   /\ errs = {} /\ fin = FALSE
+  /\ added = SeqToSet(T.init_added) /\ sel = {}
+  /\ nb0 = [t \in Uids |-> [st |-> 0, n |-> 0]]
 
 (* ---- what the application saw at callback time -------------------------- *)
 \* Task.state / Pilot.state read inside the callback is not behind the
@@ -67,7 +86,9 @@ Sync(s0, s1, d) == (Len(d) = 0 /\ s1 = s0) \/ (Len(d) > 0 /\ d[Len(d)] = s1)
 (* ---- C06 clauses on the callback log of one task ------------------------ *)
 LogErrs(t, o) ==
   LET log1 == cbLog[t] \o o.cbs IN
-       E(MonotoneLog(NT, log1) /\ AtOK(NT, o.cbs, o.at), "C06.Monotone")
+       E(MonotoneLog(NT, log1), "C06.Monotone")
+  \* a callback is not contradicted by Task.state read inside it
+  \cup E(AtOK(NT, o.cbs, o.at), "C06.CbAgrees")
   \cup E(AtMostOnceLog(log1),   "C06.AtMostOnce")
   \cup E(GapsFilledLog(NT, log1), "C06.GapsFilled")
 
@@ -109,6 +130,9 @@ DeathErrs(e, calls, refired) ==
            THEN E(o.st \in {tstate[t], FailedS(NT)}, "C13.OwnFail")
            ELSE E(o.st = FailedS(NT), "C13.OwnFail")
                 \cup E(o.det = ref.det[t] /\ o.exc, "C13.OwnFailDetail")
+                \* reported: the other components hear of it (unless the rig made
+                \* the document of this very task unavailable)
+                \cup E(o.st = FailedS(NT) /\ ~o.inj => o.pub, "C13.OwnFailPublished")
          ELSE E(o.st = tstate[t],
                 IF IsFinal(NT, tstate[t])  THEN "C13.OthersKeepFinal"
                 ELSE IF bound[t] = "none" THEN "C13.OthersKeepUnbound"
@@ -119,6 +143,70 @@ DeathErrs(e, calls, refired) ==
       same(r) == \A t \in Uids : e.tpost[t].st = r.st[t]
   IN UNION {perTask(t) : t \in Uids}
      \cup (IF same(ref) THEN {} ELSE IF same(dev) THEN {"N.D9"} ELSE {"N.UnmodelledPilotCb"})
+
+(* ---- two writers of Task.state -------------------------------------------- *)
+KeepName(t) == IF IsFinal(NT, tstate[t])  THEN "C13.OthersKeepFinal"
+               ELSE IF bound[t] = "none" THEN "C13.OthersKeepUnbound"
+               ELSE "C13.OthersKeepBound"
+
+\* everybody except `but` is where it was
+Untouched(e, but) ==
+  UNION {E(e.tpost[t].st = tstate[t], KeepName(t))
+         \cup E(IsFinal(NT, tstate[t]) => e.tpost[t].st = tstate[t], "C06.FinalSticky")
+         \cup LogErrs(t, e.tpost[t]) : t \in Uids \ but}
+
+\* Task._update(FAILED) by the callback for pilot p returned for task t
+ApplyErrs(e, p, t) ==
+  LET o == e.tpost[t] IN
+  (IF t \notin Uids THEN {"X.UnknownTask"}
+   ELSE IF IsFinal(NT, tstate[t])
+        \* final by now (the application may have been told): stays what it is
+        THEN E(o.st = tstate[t], "C06.FinalSticky") \cup LogErrs(t, o)
+   ELSE IF bound[t] = p
+        THEN E(o.st = FailedS(NT), "C13.OwnFail")
+             \cup E(o.det = p /\ o.exc, "C13.OwnFailDetail") \cup LogErrs(t, o)
+   ELSE E(o.st = tstate[t], KeepName(t)) \cup LogErrs(t, o))
+  \cup Untouched(e, {t})
+
+\* the callback returned: nobody it had to fail is left behind, and what it
+\* failed was handed on
+EndErrs(e, p) ==
+  UNION {E(IsFinal(NT, e.tpost[t].st), "C13.OwnFail")
+         \cup (IF e.tpost[t].st = FailedS(NT) /\ tstate[t] = FailedS(NT) /\ e.tpost[t].det = p
+               THEN E(~e.tpost[t].inj => e.tpost[t].pub, "C13.OwnFailPublished") ELSE {})
+         : t \in sel}
+  \cup Untouched(e, {})
+  \cup (IF e.raised THEN {"N.PilotCbRaised"} ELSE {})
+
+\* Task._update called directly: a final task stays what it is
+UpdateErrs(e) ==
+  LET t == e.uid IN
+  (IF t \in Uids
+   THEN E(IsFinal(NT, tstate[t]) => e.tpost[t].st = tstate[t], "C06.FinalSticky")
+        \cup LogErrs(t, e.tpost[t])
+   ELSE {"X.UnknownTask"})
+  \cup Untouched(e, {t})
+  \cup (IF e.raised THEN {"N.TaskUpdateRaised"} ELSE {})
+
+\* _update_tasks returned after other threads ran in between: judged against
+\* where the tasks stood when it started (nb0) and where they stand now
+NotifyEndErrs(e) ==
+  LET ref == TRes(FALSE, e.batch, tstate)
+      perTask(t) ==
+        LET o    == e.tpost[t]
+            log1 == cbLog[t] \o o.cbs
+            d    == SubSeq(log1, nb0[t].n + 1, Len(log1))
+            \* failed by the pilot callback in between: that path has no callback
+            killed == o.st = FailedS(NT) /\ o.det # "none" /\ tstate[t] = FailedS(NT) IN
+             LogErrs(t, o)
+        \cup E(IsFinal(NT, tstate[t]) => o.st = tstate[t], "C06.FinalSticky")
+        \cup (IF killed THEN {} ELSE E(Sync(nb0[t].st, o.st, d), "C06.GapsFilled"))
+      stated == UNION {perTask(t) : t \in Uids}
+      applied == \A t \in Uids : /\ e.tpost[t].st = ref.st[t]
+                                 /\ e.tpost[t].tcbs = e.tpost[t].cbs
+  IN stated
+     \cup (IF stated = {} /\ ~applied THEN {"C06.NotApplied"} ELSE {})
+     \cup (IF e.raised THEN {"N.NotifyRaised"} ELSE {})
 
 (* ---- C14 (a) ------------------------------------------------------------- *)
 PNotifyErrs(e) ==
@@ -168,27 +256,61 @@ Step ==
      /\ pcbLog' = [p \in Pids |-> pcbLog[p] \o e.ppost[p].cbs]
      /\ CASE e.ev = "Notify" ->
                /\ errs' = errs \cup NotifyErrs(e, e.batch)
-               /\ UNCHANGED bound
+               /\ UNCHANGED <<bound, added, sel, nb0>>
           [] e.ev = "Bind" ->
                LET t  == e.uid
                    ok == t \in Uids /\ ~IsFinal(NT, tstate[t]) /\ tstate[t] < e.state IN
                /\ errs' = errs \cup NotifyErrs(e, <<<<e.uid, e.state>>>>)
                             \cup (IF ok /\ e.tpost[t].pilot # e.pilot THEN {"N.BindingNotVisible"} ELSE {})
                /\ bound' = IF ok THEN [bound EXCEPT ![t] = e.pilot] ELSE bound
+               /\ UNCHANGED <<added, sel, nb0>>
           [] e.ev = "PilotFinal" ->
                /\ errs' = errs \cup DeathErrs(e, <<e.pilot>>, {})
-               /\ UNCHANGED bound
+               /\ UNCHANGED <<bound, added, sel, nb0>>
+          [] e.ev = "AddPilots" ->
+               /\ errs' = errs \cup Untouched(e, {})
+                            \cup (IF e.raised THEN {"N.AddRaised"} ELSE {})
+               /\ added' = added \cup (SeqToSet(e.pilots) \cap Pids)
+               /\ UNCHANGED <<bound, sel, nb0>>
+          [] e.ev = "TaskUpdate" ->
+               /\ errs' = errs \cup UpdateErrs(e)
+               /\ UNCHANGED <<bound, added, sel, nb0>>
+          [] e.ev = "DeathBegin" ->
+               /\ errs' = errs \cup Untouched(e, {})
+               /\ sel' = {t \in Uids : bound[t] = e.pilot /\ ~IsFinal(NT, tstate[t])}
+               /\ UNCHANGED <<bound, added, nb0>>
+          [] e.ev = "DeathApply" ->
+               /\ errs' = errs \cup ApplyErrs(e, e.pilot, e.uid)
+               /\ UNCHANGED <<bound, added, sel, nb0>>
+          [] e.ev = "NotifyBegin" ->
+               /\ errs' = errs \cup Untouched(e, {})
+               /\ nb0' = [t \in Uids |-> [st |-> tstate[t], n |-> Len(cbLog[t])]]
+               /\ UNCHANGED <<bound, added, sel>>
+          [] e.ev = "NotifyPartial" ->
+               /\ errs' = errs \cup UNION {LogErrs(t, e.tpost[t])
+                                           \cup E(IsFinal(NT, tstate[t]) => e.tpost[t].st = tstate[t],
+                                                  "C06.FinalSticky") : t \in Uids}
+               /\ UNCHANGED <<bound, added, sel, nb0>>
+          [] e.ev = "NotifyEnd" ->
+               /\ errs' = errs \cup NotifyEndErrs(e)
+               /\ UNCHANGED <<bound, added, sel, nb0>>
+          [] e.ev = "DeathEnd" ->
+               /\ errs' = errs \cup EndErrs(e, e.pilot)
+               /\ sel' = {}
+               /\ UNCHANGED <<bound, added, nb0>>
           [] e.ev = "PNotify" ->
                \* a pilot has reached a final state when the application can
                \* see it final (Pilot.state), whether or not the state callbacks
                \* ran: an exception between the two leaves its tasks unfailed
+               \* C13 speaks of the pilots the task manager was given (add_pilots)
                LET died == {p \in Pids : ~IsFinal(NP, pstate[p]) /\ IsFinal(NP, e.ppost[p].st)}
-                   ends == e.calls \o SetToSeq(died \ SeqToSet(e.calls)) IN
+                   all  == e.calls \o SetToSeq(died \ SeqToSet(e.calls))
+                   ends == SelectSeq(all, LAMBDA q : q \in added) IN
                /\ errs' = errs \cup PNotifyErrs(e)
                             \cup DeathErrs(e, ends, {p \in Pids : IsFinal(NP, pstate[p])})
                             \cup (IF died \subseteq SeqToSet(e.calls) THEN {}
                                   ELSE {"N.FinalWithoutCallback"})
-               /\ UNCHANGED bound
+               /\ UNCHANGED <<bound, added, sel, nb0>>
           [] e.ev = "RemovePilots" ->
                \* TaskManager.remove_pilots: the tasks bound to the pilot stay
                \* bound (nothing cancels or unbinds them), so the pilot's end is
@@ -199,17 +321,17 @@ Step ==
                             \cup (IF \A t \in Uids : e.tpost[t].st = tstate[t] THEN {}
                                   ELSE {"N.RemoveChangedTasks"})
                             \cup (IF e.raised THEN {"N.RemoveRaised"} ELSE {})
-               /\ UNCHANGED bound
+               /\ UNCHANGED <<bound, added, sel, nb0>>
           [] OTHER ->
                /\ errs' = errs \cup {"X.UnknownEvent"}
-               /\ UNCHANGED bound
+               /\ UNCHANGED <<bound, added, sel, nb0>>
   /\ UNCHANGED tid
 
 Finish ==
   /\ ~fin /\ l > Len(Ev)
   /\ fin' = TRUE
   /\ PrintT(<<"RESULT", T.tid, errs>>)
-  /\ UNCHANGED <<tid, l, tstate, cbLog, bound, pstate, pcbLog, errs>>
+  /\ UNCHANGED <<tid, l, tstate, cbLog, bound, pstate, pcbLog, errs, added, sel, nb0>>
 
 Next == Step \/ Finish
 Spec == Init /\ [][Next]_vars
